@@ -95,6 +95,24 @@ class Machine(Stage):
         super().__init__(name, quick, thorough, factory=factory)
 
 
+class Fuzz(Stage):
+    """Coverage-guided campaign (atheris).  Either decode(bytes) -> case | None, or structured = zero-arg callable returning a
+    Hypothesis strategy of cases (driven through fuzz_one_input).  quick/thorough = total executions (0 = stage skipped)."""
+    kind = 'fuzz'
+
+    def __init__(self, name, quick, thorough, decode=None, structured=None, seeds=None, dictionary=None, max_len=256, shards=NPROC):
+        super().__init__(name, quick, thorough, decode=decode, structured=structured, seeds=seeds, dictionary=dictionary,
+                         max_len=max_len, shards=shards)
+
+
+def atheris_available():
+    try:
+        import importlib.util
+        return importlib.util.find_spec('atheris') is not None
+    except Exception:
+        return False
+
+
 # --------------------------------------------------------------------------- collector
 
 def case_hash(case):
@@ -264,6 +282,28 @@ def _work(task):
             cls = stage.factory(col.observe)
             run_state_machine_as_test(hypothesis.seed(sd)(cls), settings=_hyp_settings(n, steps=steps))
             extra = dict(kind='machine', seed=sd)
+        elif stage.kind == 'fuzz':
+            import pickle
+            import subprocess
+            runs = payload
+            sd = (vseed * 1000 + si * 37 + shard) & 0x7FFFFFFF or 1
+            d = os.path.join(tmpdir(), 'fuzz-%d-%d' % (si, shard))
+            os.makedirs(d, exist_ok=True)
+            stats = os.path.join(d, 'stats.pickle')
+            p = subprocess.run([sys.executable, '-m', 'pv.fuzz', modname, str(si), tier, stats, os.path.join(d, 'corpus'), str(runs), str(sd)],
+                               stdout=subprocess.PIPE, stderr=subprocess.STDOUT, cwd=ROOT)
+            if not os.path.exists(stats):
+                raise HarnessError('fuzz stage produced no statistics: %s' % p.stdout.decode('utf-8', 'replace')[-1500:])
+            with open(stats, 'rb') as fh:
+                res = pickle.load(fh)
+            res['wall_s'] = time.time() - t0
+            res['kind'] = 'fuzz'
+            ncorpus = len(os.listdir(os.path.join(d, 'corpus'))) if os.path.isdir(os.path.join(d, 'corpus')) else 0
+            res['classes']['fuzz:corpus-entries'] += ncorpus
+            res['classes']['fuzz:executions'] += res.get('execs', 0)
+            if p.returncode not in (0,):
+                res['classes']['fuzz:abnormal-exit-%s' % p.returncode] += 1
+            return ('ok', res)
         else:
             raise HarnessError('unknown stage kind %r' % stage.kind)
         extra['wall_s'] = time.time() - t0
@@ -422,6 +462,15 @@ def _main(pid, tier, vseed, replay=None):
             shards = st.shards or (NPROC if n >= 16 * 20 else max(1, n // 20))
             for sh in range(shards):
                 tasks.append((modname, tier, si, sh, shards, vseed, n // shards + (1 if sh < n % shards else 0)))
+        elif st.kind == 'fuzz':
+            n = st.budget(tier)
+            if not n:
+                continue
+            if not atheris_available():
+                print('note: atheris is not installed (./setup.sh); coverage-guided stage %s skipped' % st.name)
+                continue
+            for sh in range(st.shards):
+                tasks.append((modname, tier, si, sh, st.shards, vseed, max(1, n // st.shards)))
         elif st.kind == 'machine':
             n, steps = st.budget(tier)
             shards = NPROC if n >= 16 * 4 else max(1, n // 4)
